@@ -97,8 +97,9 @@ fn temporal<const N: usize>() {
 }
 
 verif_proof! { [C27]
-    #[kani::unwind(6)]
+    #[kani::unwind(3)]
     #[kani::use_stub_set(crate::verif_env::memvid_stubs)]
+    #[kani::use_stub_set(crate::verif_env::constant_hash_stubs)]
     #[kani::stub(alloc::fmt::format, crate::verif_env::stub_format)]
     fn c27_temporal_2cards() { temporal::<2>(); }
 }
